@@ -237,7 +237,15 @@ func (s *scenario) take(a *Attempt) {
 	if a.Hook != s.names[h] {
 		s.mismatch(h+1, "spurious", fmt.Sprintf("endpoint of hook %s received a message of hook %q: %s", s.names[h], a.Hook, a.Body))
 	}
-	if old := s.held[h]; old != nil && !old.Gone() {
+	old := s.held[h]
+	if old != nil && !old.Gone() {
+		// the sender of a hook is sequential: a new request means that the previous one is over for the client;
+		// give the endpoint's server a moment to notice that the connection was closed
+		for i := 0; i < 200 && !old.Gone(); i++ {
+			time.Sleep(5 * time.Millisecond)
+		}
+	}
+	if old != nil && !old.Gone() {
 		s.mismatch(h+1, "attempt", fmt.Sprintf("hook %s has two requests in flight at once (%s/%s and %s/%s): its sender is not sequential",
 			s.names[h], old.ID, old.Detect, a.ID, a.Detect))
 		old.Decide(Abort)
@@ -356,7 +364,7 @@ func (s *scenario) sethook(h int, extra ...string) (t38.Value, error) {
 // Run replays one behaviour.
 func (r *Runner) Run(bi int, sc *Script, st *Stats) ([]Mismatch, error) {
 	r.seq++
-	stall := NewStall()
+	stall := NewStall(r.srv.Dir)
 	defer stall.Stop()
 	s := &scenario{r: r, sc: sc, bi: bi, st: st, tag: fmt.Sprintf("n%d-%d-%d", os.Getpid()%1000, r.id, r.seq),
 		keys: map[int]string{}, arrivals: make(chan *Attempt, 1024), accounted: map[string]int{}}
@@ -427,12 +435,23 @@ func (r *Runner) Run(bi int, sc *Script, st *Stats) ([]Mismatch, error) {
 	t0 := time.Now()
 	desync := false
 	usedTicks := false
+	tickStart := t0
+	redefined := ""
+	for _, ev := range sc.H {
+		if ev.A == "replace" {
+			redefined = " [the hook was redefined by SETHOOK while its old sender was still at work]"
+		}
+	}
 	url := func(h, e int) string { return r.eps[[2]int{h, e}].URL(s.tag, fmt.Sprintf("h%d", h)) }
 
 	for _, ev := range sc.H {
 		st.Events++
 		if os.Getenv("NOTIFY_DEBUG") != "" {
 			fmt.Fprintf(os.Stderr, "%s event %+v\n", time.Now().Format("15:04:05.000"), ev)
+		}
+		if sc.MaxClock > 0 && ev.A != "tick" && time.Since(tickStart) > 5*time.Second {
+			// the retention is judged on a grid of ticks: everything between two ticks has to happen well within one
+			s.tainted = true
 		}
 		switch ev.A {
 		case "write":
@@ -475,6 +494,7 @@ func (r *Runner) Run(bi int, sc *Script, st *Stats) ([]Mismatch, error) {
 			if d := time.Until(t0.Add(time.Duration(ev.Clock) * r.o.TickDur)); d > 0 {
 				s.pump(d)
 			}
+			tickStart = time.Now()
 		case "try":
 			if s.auto {
 				continue
@@ -712,8 +732,9 @@ func (r *Runner) Run(bi int, sc *Script, st *Stats) ([]Mismatch, error) {
 			return nil, nil
 		}
 	}
-	for _, m := range s.out {
-		st.Classes[m.Class]++
+	for i := range s.out {
+		s.out[i].Text += redefined
+		st.Classes[s.out[i].Class]++
 	}
 	return s.out, nil
 }
